@@ -392,6 +392,14 @@ def grid (l : Line) (sigma : Rat) (nu : Option Rat) : IO Unit := do
   let PB := bitsList (l.getD "P")
   let VB := bitsList (l.getD "V")
   let xs := xsB.map toRat
+  -- K: the float64 instance of TDist.CDF / NormalDist.CDF with the transcendental parameter given
+  -- as the table the harness measured (argument → value)
+  let tbl := table ((bitsList (l.getD "A")).zip (bitsList (l.getD "B")))
+  let Fm : List String := xsB.map fun x =>
+    match nu with
+    | some _ => showOpt (Dists.tcdf (fun a _ _ => tbl a) ⟨bitsD (l.getD "nu")⟩ ⟨x⟩)
+    | none => showFl (Dists.ncdf tbl ⟨0x3FF6A09E667F3BCD⟩ ⟨bitsD (l.getD "mu")⟩ ⟨bitsD (l.getD "sigma")⟩ ⟨x⟩)
+  IO.println s!"obs {id} F={showList Fm}"
   let fin := FB.all F64.isFinite
   if !fin then
     IO.println s!"spec {id} range=bad(nonfinite) mono=ok sym=ok quad=ok inv=ok"
